@@ -593,7 +593,10 @@ def font_labels(tables):
 def record_file(acc, case, data, labels, container):
     fp = hashlib.sha1(data).hexdigest()[:14]
     nontrivial = any(l in labels for l in ("glyph:composite", "hmtx:trimmed", "flavor:woff", "flavor:woff2", "kind:ttc")) or case.get("reorder", True) is not True or case.get("padding") is not None
-    acc.case(fp, nontrivial=nontrivial, labels=labels, sample=None)
+    sample = None
+    if len(acc.samples) < acc.MAX_SAMPLES and "gen" not in case.get("src", {}) and case.get("kind") == "font":
+        sample = dict(case=case, bytes=len(data), sha1=fp, kind=container.kind, tables=len(container.fonts[0].tables))
+    acc.case(fp, nontrivial=nontrivial, labels=labels, sample=sample)
 
 
 def check_file(acc, case, data, flavor, derived, cache, extra_labels=(), padding_clause=None):
